@@ -805,6 +805,37 @@ class CallMixin:
             if args:
                 self.list_extend(dq, self.resolve_alt(args[0]))
             return dq
+        if q == "itertools.accumulate" and 1 <= len(args) <= 2 and set(kwargs) <= {"func", "initial"} and not (len(args) == 2 and "func" in kwargs):
+            # running left fold: [initial,] then acc = f(acc, item) for every item; the results so far are collected in order
+            f = args[1] if len(args) == 2 else kwargs.get("func")
+            it = self.resolve_alt(args[0])
+            init = kwargs.get("initial")
+            if isinstance(init, Const) and init.v is None:
+                init = None
+            out_l = PyList([])
+            out_l.created_in = self._frame_id()  # type: ignore[attr-defined]
+            out_l._loop_depth = len(self.loop_ctx)  # type: ignore[attr-defined]
+            box = {"acc": init}
+            if init is not None:
+                out_l.items.append(init)
+            else:
+                items0 = self.concrete_items(it)
+                if items0 is None and isinstance(it, PyList) and it.items:
+                    items0 = None
+                if items0 is not None:
+                    if not items0:
+                        return out_l
+                    box["acc"], it = items0[0], PyList(items0[1:])
+                    out_l.items.append(box["acc"])
+                else:
+                    box = None  # type: ignore[assignment]
+            if box is not None:
+                def body_acc(item):
+                    box["acc"] = self.binop(ast.Add(), box["acc"], item, module, node) if f is None else self.call_v(f, [box["acc"], item], {}, module, node, env)
+                    self.list_append(out_l, box["acc"])
+
+                self.iterate(it, body_acc, module, node)
+                return out_l
         if q in ("itertools.chain", "itertools.chain.from_iterable"):
             seqs = list(args)
             if q.endswith("from_iterable") and len(args) == 1:
@@ -835,6 +866,20 @@ class CallMixin:
 
             self.iterate(it, body, module, node)
             return box["acc"]
+        if q == "dataclasses.replace" and len(args) == 1 and "**" not in kwargs:
+            # a copy of the node with some fields changed: built through the class's constructor, like any other new node
+            n = self.resolve_alt(args[0])
+            kind = None
+            if isinstance(n, NodeV) and "NoneType" not in n.kinds:
+                self.force_single(n)
+                kind = n.single()
+            elif isinstance(n, NewNode):
+                kind = n.cls
+            if kind in self.schema.classes:
+                names = [f.name for f in self.schema.classes[kind].fields]
+                if all(k in names for k in kwargs):
+                    vals = {fn: (kwargs[fn] if fn in kwargs else self.getattr_v(n, fn, module, node)) for fn in names}
+                    return self.construct_node(kind, [], vals, module, node)
         if q == "dataclasses.fields" and len(args) == 1:
             n = self.resolve_alt(args[0])
             if isinstance(n, NodeV):
@@ -987,6 +1032,8 @@ class CallMixin:
         a = [self.resolve_alt(x) for x in args]
         if name == "__identity__" and len(a) == 1:
             return a[0]
+        if name == "staticmethod" and len(a) == 1 and not kwargs:
+            return a[0]  # looked up through the class or an instance, a staticmethod is the function it wraps
         if name == "isinstance" and len(a) == 2:
             return Const(self.isinstance_v(a[0], a[1]))
         if name == "issubclass" and len(a) == 2:
@@ -1080,6 +1127,12 @@ class CallMixin:
                         n.loop_parts = list(v.loop_parts)
                         n.created_in = self._frame_id()
                         return n
+                    if isinstance(v, MapV):
+                        # list(map(f, xs)) / list(<generator over xs>): the same element-wise image of xs, as a list
+                        m2 = MapV(v.over, v.elem, v.var)
+                        if getattr(v, "filtered", False):
+                            m2.filtered = True  # type: ignore[attr-defined]
+                        return m2
                     return AbsList(v.elem, self.list_minlen(v))
                 return Sym("tupleof", v)
             return Sym("call", RefV("builtins." + name), tuple(a), ())
@@ -1246,6 +1299,22 @@ class CallMixin:
             return NONE
         if name == "object":
             return Sym("object")
+        if name == "sum" and 1 <= len(a) <= 2 and set(kwargs) <= {"start"}:
+            items = self.concrete_items(self.resolve_alt(a[0]))
+            start = a[1] if len(a) == 2 else kwargs.get("start", Const(0))
+            if items is not None and all(isinstance(x, Const) and isinstance(x.v, (int, float)) for x in items) and isinstance(start, Const) \
+                    and isinstance(start.v, (int, float)):
+                return Const(sum((x.v for x in items), start.v))
+            if items is not None and not any(isinstance(x, Sym) and x.op in ("elemof", "star") for x in items) and \
+                    not all(isinstance(x, Const) for x in items):
+                # the left fold start + x1 + x2 + ...; an integer 0 start adds nothing
+                acc = start
+                for x in items:
+                    if acc is start and isinstance(acc, Const) and acc.v == 0 and type(acc.v) is int:
+                        acc = x
+                    else:
+                        acc = self.binop(ast.Add(), acc, x, module, node)
+                return acc
         if name in ("min", "max", "sum", "abs", "round") and a and all(isinstance(x, Const) for x in a):
             try:
                 return Const({"min": min, "max": max, "sum": sum, "abs": abs, "round": round}[name](*[x.v for x in a]))
@@ -1461,6 +1530,10 @@ class CallMixin:
             tr = ("replace", a[0].v if isinstance(a[0], Const) else _describe(a[0]), a[1].v if isinstance(a[1], Const) else _describe(a[1]))
         elif name in ("upper", "lower", "casefold", "strip", "lstrip", "rstrip", "title", "capitalize", "swapcase"):
             tr = (name,) + tuple(x.v if isinstance(x, Const) else _describe(x) for x in a)
+        elif name in ("removeprefix", "removesuffix") and len(a) == 1 and isinstance(a[0], Const) and isinstance(a[0].v, str) and not kwargs:
+            # conditional removal; where the text is known to start/end that way (a token of a rule whose language does) it is
+            # the slice - see kindflow.normalise_token_text
+            tr = (name, a[0].v)
         if tr is not None:
             s = Str(to_str_parts(base, (tr,)))
             return Const(s.const()) if s.is_const() else s
